@@ -319,16 +319,59 @@ theorem regexp_filter_hides_matched_spans (o : Oracles) (s1 s2 : Bytes)
   rw [← hsp]
   exact reLoop_congr s1 s2 _ 0 hw (fun i _ hc => hagree i hc)
 
-/-- **query**, when `url.Parse` succeeds: the output is the parsed URL with a query string in which every
-    parameter named by an action has only values taken from the action list (a replacement value or the
-    hash of one) — never a value of the input.  (Full statement: `Witness.query_filter_full_fails`.) -/
-theorem query_filter_hides_param_partial (o : Oracles) (acts : List Act) (s : Bytes) (u : URLParts)
-    (hp : o.parseURL s = some u) :
-    queryStr o acts s = urlString u (encodeQuery (applyActs o.H acts u.q)) ∧
-    ∀ kv ∈ applyActs o.H acts u.q, hiddenBy acts kv.1 = true → ∀ v ∈ kv.2, v ∈ actConsts o.H acts := by
-  refine ⟨by simp [queryStr, hp], ?_⟩
-  intro kv hkv hh
-  exact applyActs_hidden o.H acts u.q kv hkv hh
+/-- **query.** For every value: either it contains no `?` at all — it has no query part and is returned
+    as is — or the output is `pre ? query # post` where `pre`/`post`/the parameters come from `url.Parse`,
+    or, when `url.Parse` rejects the value, from cutting it at its first `?` (and the following `#`), and in
+    that query every parameter named by an action has only values taken from the action list (a replacement
+    value or the hash of one) — never a value of the input.
+    (The behaviour before the fallback: `Witness.query_filter_old_code_fails`.) -/
+theorem query_filter_hides_param (o : Oracles) (acts : List Act) (s : Bytes) :
+    (∃ u, (o.parseURL s = some u ∨ (o.parseURL s = none ∧ fallbackParts o s = some u)) ∧
+        queryStr o acts s = urlString u (encodeQuery (applyActs o.H acts u.q)) ∧
+        ∀ kv ∈ applyActs o.H acts u.q, hiddenBy acts kv.1 = true → ∀ v ∈ kv.2, v ∈ actConsts o.H acts)
+    ∨ ((63 : UInt8) ∉ s ∧ queryStr o acts s = s) := by
+  cases hp : o.parseURL s with
+  | some u =>
+    exact Or.inl ⟨u, Or.inl rfl, by simp [queryStr, hp],
+      fun kv hkv hh => applyActs_hidden o.H acts u.q kv hkv hh⟩
+  | none =>
+    cases hf : fallbackParts o s with
+    | some u =>
+      exact Or.inl ⟨u, Or.inr ⟨rfl, rfl⟩, by simp [queryStr, hp, hf],
+        fun kv hkv hh => applyActs_hidden o.H acts u.q kv hkv hh⟩
+    | none =>
+      refine Or.inr ⟨?_, by simp [queryStr, hp, hf]⟩
+      unfold fallbackParts at hf
+      cases hc : cutAt 63 s with
+      | none => exact cutAt_none 63 s hc
+      | some xy => simp [hc] at hf
+
+/-- the fallback works on literal pieces of the input: the text before the first `?`, the raw query up to
+    the next `#` (handed to `url.ParseQuery`), and the rest, which is copied -/
+theorem query_fallback_is_textual (o : Oracles) (s : Bytes) (u : URLParts) (h : fallbackParts o s = some u) :
+    ∃ rawq, s = u.pre ++ 63 :: rawq ++ u.post ∧ (63 : UInt8) ∉ u.pre ∧ (35 : UInt8) ∉ rawq ∧
+      u.q = o.parseQuery rawq ∧ u.force = rawq.isEmpty := by
+  unfold fallbackParts at h
+  cases hc : cutAt 63 s with
+  | none => simp [hc] at h
+  | some xy =>
+    rcases xy with ⟨before, after⟩
+    simp [hc] at h
+    have h1 := cutAt_some 63 s before after hc
+    unfold splitQuery at h
+    cases hd : cutAt 35 after with
+    | none =>
+      simp [hd] at h
+      subst h
+      exact ⟨after, by simpa using h1.1, h1.2, cutAt_none 35 after hd, rfl, rfl⟩
+    | some rf =>
+      rcases rf with ⟨rawq, frag⟩
+      simp [hd] at h
+      subst h
+      have h2 := cutAt_some 35 after rawq frag hd
+      refine ⟨rawq, ?_, h1.2, h2.2, rfl, rfl⟩
+      rw [h1.1, h2.1]
+      simp
 
 /-- parameters no action names come out exactly as `url.Parse` delivered them -/
 theorem query_filter_keeps_other_params (o : Oracles) (acts : List Act) (u : URLParts) :
@@ -444,6 +487,7 @@ def exO : Oracles where
   parseIP := fun s => if s = str "10.1.2.3" then some (.v4 [10, 1, 2, 3]) else if s = str "10.1.9.9" then some (.v4 [10, 1, 9, 9]) else none
   ipStr := fun m => if m = some [10, 1, 0, 0] then str "10.1.0.0" else str "<nil>"
   parseURL := fun s => if s = str "/a?token=S&x=1" then some ⟨str "/a", [], false, [(str "token", [str "S"]), (str "x", [str "1"])]⟩ else none
+  parseQuery := fun s => if s = str "token=S&x=1" then [(str "token", [str "S"]), (str "x", [str "1"])] else []
   cookies := fun _ => [⟨str "sid", str "S", false⟩, ⟨str "x", str "1", false⟩, ⟨str "del", str "D", false⟩]
   reSpans := fun s => if s.length = 9 then [⟨0, 5, str "tok=X"⟩] else []
 
@@ -464,6 +508,11 @@ example : queryStr exO [⟨.delete, str "token", []⟩] (str "/a?token=S&x=1") =
 example : queryStr exO [⟨.replace, str "token", str "R"⟩] (str "/a?token=S&x=1") = str "/a?token=R&x=1" := by decide
 example : queryStr exO [⟨.hash, str "token", []⟩] (str "/a?token=S&x=1") = str "/a?token=h&x=1" := by decide
 example : hiddenBy [⟨.delete, str "token", []⟩] (str "token") = true := by decide
+-- `url.Parse` rejects `%zz/a?token=S&x=1#%zz` (exO.parseURL = none): the query part is filtered all the same
+example : exO.parseURL (str "%zz/a?token=S&x=1#%zz") = none ∧
+    queryStr exO [⟨.delete, str "token", []⟩] (str "%zz/a?token=S&x=1#%zz") = str "%zz/a?x=1#%zz" ∧
+    queryStr exO [⟨.replace, str "token", str "R"⟩] (str "%zz/a?token=S&x=1") = str "%zz/a?token=R&x=1" ∧
+    queryStr exO [⟨.delete, str "token", []⟩] (str "%zz/a") = str "%zz/a" := by decide
 example : cookieVal exO [⟨.replace, str "sid", str "R"⟩, ⟨.delete, str "del", []⟩] (.arr [str "sid=S; x=1; del=D"])
     = .arr [str "sid=R; x=1"] := by decide
 example : reStr exO (str "tok=S;a=1") = str "tok=X;a=1" ∧ wfSpans 0 (exO.reSpans (str "tok=S;a=1")) = true
